@@ -627,6 +627,8 @@ impl PersistBackend for FilePersist {
     }
 
     fn sync(&self) -> StorageResult<()> {
+        #[cfg(feature = "verif-hooks")]
+        crate::verif_hooks::before_lock("persist.sync.wal", &|| self.wal.try_lock().is_some());
         let mut wal = self.wal.lock();
         wal.sync()
     }
